@@ -3,7 +3,7 @@
    read-only decision. *)
 From Coq Require Import List String NArith Bool.
 Import ListNotations.
-From GMS Require Import Plan.C42Base gen.C42Flags Plan.ReadOnly.
+From GMS Require Import Plan.C42Base gen.C42Flags Plan.ReadOnly Plan.C42Validators.
 Open Scope string_scope.
 
 Inductive obs : Type :=
@@ -14,7 +14,42 @@ Inductive obs : Type :=
 
 (* plan tree, observation, "the read-write engine changed the database", "the read-only engine answered ErrReadOnly",
    "the read-only engine accepted the statement" *)
-Definition case : Type := (tree * obs * bool * bool * bool)%type.
+(* One recorded invocation of an analyzer validator: which rule, (ctx.GetTransaction() != nil, its IsReadOnly(),
+   scope.EnforcesReadOnly()), the input node as the walk sees it, and the code of the error the REAL rule returned
+   (0 none, 1 ErrReadOnlyTransaction, 2 ErrReadOnlyDatabase, 3 ErrProcedureCallAsOfReadOnly, 9 anything else). *)
+Inductive vwhich : Type := VTxn | VDb.
+Definition vcall : Type := (vwhich * (bool * bool * bool) * vt * N)%type.
+
+Definition model_call (c : vcall) : N :=
+  let '(w, (has_txn, txn_ro, enforce), t, _) := c in
+  match w with VTxn => txn_rule has_txn txn_ro enforce t | VDb => db_rule enforce t end.
+
+Definition call_ok (c : vcall) : bool := let '(_, _, _, observed) := c in N.eqb (model_call c) observed.
+
+(* the engine's decision on the statement (code of the statement's error) against the model's verdicts on the inputs the
+   rule received while the statement ran.  Sound: if the model rejects a recorded input, the statement failed with the
+   rule's error.  Complete: if the statement failed with the rule's error, the model rejects a recorded input -- except
+   under a CALL root: the statements of a stored body are analyzed while the procedure runs, literal INSERT and
+   single-table UPDATE / DELETE through getBatchesForNode's short-cut batches, which refer to the rules directly and
+   cannot be recorded (the top-level short-cut inputs are rebuilt by the driver). *)
+Definition rejects (w : vwhich) (code : N) (c : vcall) : bool :=
+  let '(w', _, _, _) := c in
+  match w, w' with VTxn, VTxn | VDb, VDb => N.eqb (model_call c) code | _, _ => false end.
+Definition under_call (c : vcall) : bool := let '(_, _, t, _) := c in String.eqb (vkind t) "Call".
+Definition decision_ok (w : vwhich) (code : N) (stmt_code : N) (calls : list vcall) : bool :=
+  implb (existsb (rejects w code) calls) (N.eqb stmt_code code)
+  && implb (N.eqb stmt_code code) (existsb (rejects w code) calls || existsb under_call calls).
+
+(* invocations under the read-write engine; (statement error code, invocations) inside START TRANSACTION READ ONLY;
+   the same with the current database read-only *)
+Definition vinfo : Type := (list vcall * (N * list vcall) * (N * list vcall))%type.
+
+Definition vinfo_ok (v : vinfo) : bool :=
+  let '(rw, (tcode, tcalls), (dcode, dcalls)) := v in
+  forallb call_ok rw && forallb call_ok tcalls && forallb call_ok dcalls
+  && decision_ok VTxn 1 tcode tcalls && decision_ok VDb 2 dcode dcalls.
+
+Definition case : Type := (tree * obs * bool * bool * bool * vinfo)%type.
 
 (* computable version of ReadOnlyProofs.exec_node: does executing the plan execute a writing node? *)
 Fixpoint exec_writes (fuel : nat) (t : tree) : bool :=
@@ -31,7 +66,8 @@ Fixpoint exec_writes (fuel : nat) (t : tree) : bool :=
 Definition fuel : nat := 200.
 
 Definition ok (c : case) : bool :=
-  let '(t, o, changed, rejected, accepted) := c in
+  let '(t, o, changed, rejected, accepted, v) := c in
+  vinfo_ok v &&
   match o with
   | OAnalysisFailed => true
   | OForeign => true
